@@ -107,6 +107,22 @@ def n_histories(spec):
     return r
 
 
+def small_instances():
+    """Bounded-exhaustive sweep (validates the model against the code; never
+    stands in for a theorem): 2 jobs x 1-2 operations, machines {0,1},
+    durations {0,1,2}; 3 jobs x 1-2 operations, machines {0,1}, durations {0,1}."""
+    import itertools
+
+    def jobs(durs):
+        ops = [[[m], d] for m in (0, 1) for d in durs]
+        return [[a] for a in ops] + [[a, b] for a in ops for b in ops]
+
+    for a, b in itertools.product(jobs((0, 1, 2)), repeat=2):
+        yield [a, b]
+    for a, b, c in itertools.product(jobs((0, 1)), repeat=3):
+        yield [a, b, c]
+
+
 def _exc_code(e):
     from job_shop_lib.exceptions import NoSolutionFoundError
 
@@ -167,9 +183,10 @@ class C03(Check):
         "assumed, validated by sampling only: OR-tools CP-SAT 9.14 (search, statuses, time limit, semantics of "
         "linear / interval / no_overlap / lin_max constraints — zero-length intervals are NOT exempt from "
         "no_overlap); the canonicaliser resolves the interval indices of no_overlap to their contents",
-        "opt_bf (brute force over dispatch histories) is proved to be the makespan of a feasible complete "
-        "schedule; that no feasible schedule is shorter rests on semi-active dominance, which is NOT proved "
-        "here — the proved statement about the solver (C03_opt) does not use opt_bf",
+        "opt_bf (brute force over all dispatch histories, extracted) is proved to be OPT(I) "
+        "(C03_opt_bf_correct, via semi-active dominance) — it is exponential, so it is only used up to "
+        "~30000 (quick) / 400000 (thorough) histories; larger instances are compared with the proved lower "
+        "bound, the rule solvers and the recorded benchmark bounds only",
     ]
     nontrivial_rule = ("random non-flexible instances (1-4 jobs x 1-4 machines, 1-4 operations per job, zero "
                        "durations in ~60% of them, recirculation, unused machine ids, 0-2 earlier solves on the "
@@ -178,7 +195,7 @@ class C03(Check):
 
     # ---- generation ---------------------------------------------------------
     def budget(self):
-        return 700 if self.tier == "quick" else 8000
+        return 1500 if self.tier == "quick" else 8000
 
     def search_budget(self):
         return 2000 if self.tier == "quick" else 10000
@@ -186,7 +203,8 @@ class C03(Check):
     def _instance(self, rng, zero=None, flexible=False, max_jobs=4, max_ops=4):
         spec = common.gen_instance(rng, max_jobs=max_jobs, max_machines=4, max_ops=max_ops, flexible=flexible,
                                    zero=(rng.random() < 0.6) if zero is None else zero,
-                                   big=rng.random() < 0.1)
+                                   big=rng.random() < 0.1, min_jobs=1 if rng.random() < 0.2 else 2,
+                                   allow_empty_jobs=rng.random() < 0.05)
         if zero is None and not flexible and rng.random() < 0.25:
             # the defect-prone shape: many zero durations, few machines
             for job in spec:
@@ -224,6 +242,10 @@ class C03(Check):
             cases.append({"bench": nm, "spec": None, "prev": [[[[0], 0], [[0], 3]], [[[0], 1]]],
                           "limit_us": 30_000_000, "call": 0})
             self.note("benchmark")
+        if self.tier == "thorough":
+            for spec in small_instances():
+                cases.append({"spec": spec, "prev": [], "limit_us": 10_000_000, "call": 0})
+                self.note("bounded_exhaustive")
         for _ in range(n):
             c = self.make_case(rng)
             cases.append(c)
@@ -352,6 +374,8 @@ class C03(Check):
                                      "instance without operations: NoSolutionFoundError although the empty "
                                      "schedule is feasible and complete (AddMaxEquality over no expression)"))
             return fails
+        if tiny:
+            self.note("tiny_limit_no_solution" if exc == 5 else "tiny_limit_solved_anyway")
         if exc == 5 and not tiny:
             fails.append(Failure("oracle", "no-solution-without-limit",
                                  f"NoSolutionFoundError with a time limit of {case['limit_us']} us "
@@ -386,6 +410,7 @@ class C03(Check):
                 fails.append(Failure("oracle", "above-horizon", "makespan above total duration",
                                      expected=total, observed=mk_spec))
             if bf is not None:
+                self.note("compared_with_opt_bf")
                 if not bf:
                     fails.append(Failure("tie", "opt_bf", "brute force found no complete history"))
                 elif (optimal and mk_spec != bf[0]) or mk_spec < bf[0]:
@@ -393,6 +418,7 @@ class C03(Check):
                                          f"status {'optimal' if optimal else 'feasible'}: makespan {mk_spec}, "
                                          f"independently computed optimum {bf[0]}", expected=bf[0], observed=mk_spec))
             if optimal:
+                self.note("rule_results_compared", len(obs["rules"]))
                 for i, mk in obs["rules"]:
                     if mk_spec > mk:
                         fails.append(Failure("oracle", "above-rule-result",
@@ -412,7 +438,10 @@ class C03(Check):
         if obs["fresh"] and not tiny:
             f_exc, f_status, f_mk = obs["fresh"]
             mine = [exc, status, obs["meta"][1] if obs["meta"] else -1]
-            if (f_exc != exc and 1 not in (f_exc, exc)) or (f_status == 4 and status == 4 and f_mk != mine[2]):
+            # (a ValidationError on one side only is the rebuild defect, reported above: CP-SAT may
+            # return different optimal assignments in different runs)
+            if (f_exc != exc and 1 not in (f_exc, exc)) or (
+                    f_exc == 0 and exc == 0 and f_status == 4 and status == 4 and f_mk != mine[2]):
                 fails.append(Failure("oracle", "depends-on-earlier-solves",
                                      "a fresh solver object and the re-used one disagree",
                                      expected=obs["fresh"], observed=mine))
